@@ -3,7 +3,7 @@ import re
 CONFIG = dict(
     bin="c05",
     drv="drv_c05",
-    lean_modules=["MahfModel.Props.C05", "MahfModel.Props.C05Mem"],
+    lean_modules=["MahfModel.Props.C05", "MahfModel.Props.C05Mem", "MahfModel.Props.C05Rerun"],
     namespaces=["MahfModel.Props.C05"],
     shrink_lists=["ops"],
     level="proof",
@@ -35,9 +35,24 @@ CONFIG = dict(
           "(b) run level: all 21 templates x 4 parameter points x 4 instances x seeds x {seq,par} for 6 (10) iterations plus "
           "one run of 40 (four of 120) iterations per template and parameter point: after EVERY step every individual reachable "
           "from the state is re-evaluated with raw_f and compared bit-exactly (O); for up to 40 distinct leaf transitions per run "
-          "the before/after snapshots go to the driver (K as above, O again in Lean). Non-trivial: a history with a solution_mut / "
+          "the before/after snapshots go to the driver (K as above, O again in Lean). "
+          "(d) a State that is used again (public Configuration::run): every template x 4 parameter points x instance(s) is run on "
+          "its instance and then, ON THE SAME State, on one or two further instances of the same problem type (same search space "
+          "with another objective function: sphere shift +2 / -0.75, TSP with other distances / renamed cities; another dimension, "
+          "domain or number of cities as well; back to the first instance; the same instance again); between two runs the harness "
+          "does only the caller's part (new empty population stack, new Random, the observer of the run), everything else in the "
+          "state is left to the components' init; every run is audited after EVERY step (from the first step on, i.e. right after "
+          "the init phase) against the objective function of ITS instance, leaf transitions go to the driver as in (b); the class "
+          "of a violation names the memory (stale-best, stale-archive, stale-pso-personal, stale-pso-global, stale-cro-molecule, "
+          "stale-stack). Component level: for the evaluator, BestIndividualUpdate, ElitistArchiveUpdate / IntoPopulation, the PSO "
+          "personal / global best components, ChemicalReactionInit and the four CRO reactions a first phase (init, execute) on one "
+          "instance fills the memory, then the population stack is replaced, init runs again and the component is executed for "
+          "ANOTHER instance (real: other shift, second population smaller / larger / sharing a solution; permutations: other "
+          "distances): O = everything the state holds right after the re-initialisation AND after the execution carries the value "
+          "of the NEW objective function; K = the init model (memRun over the components' init ops) on the real snapshot. "
+          "Non-trivial: a history with a solution_mut / "
           "as_solutions_mut and an evaluation, a component case, or a template run; distinct = distinct canonical input."),
-    nontrivial=lambda inp: inp.startswith("(run") or inp.startswith("(comp") or (("solmut" in inp) and ("(eval" in inp or "(new " in inp)),
+    nontrivial=lambda inp: inp.startswith("(run") or inp.startswith("(rerun") or inp.startswith("(comp") or (("solmut" in inp) and ("(eval" in inp or "(new " in inp)),
     trusted_base=[
         "solutions are abstract ids in the model; the harness interns real encodings by == (the equality Individual::eq, contains and "
         "position use) - per pool for API histories, per case for snapshots",
@@ -49,7 +64,13 @@ CONFIG = dict(
                  "custom user components are outside the quantifier; which model (exact memStep op or kind) belongs to a component name "
                  "is a hand-written table in Model/PopMachineC05.lean (its agreement with the code is K); an unknown name gets kind "
                  "'any' = only 'no new (solution, objective) pair'",
-                 "the energy arithmetic of the CRO reactions is a Boolean witness here (modelled in C20)"],
+                 "the energy arithmetic of the CRO reactions is a Boolean witness here (modelled in C20)",
+                 "a State that is used again: the CALLER supplies the population stack ('the caller is responsible for initializing "
+                 "state properly'); populations left on the stack by an earlier run are the caller's, not the configuration's; a memory "
+                 "that no component of the configuration owns is outside the statement (OwnedOrValid)",
+                 "OneMax has no parameter that changes its objective function: for binary_ga the second instance only differs in "
+                 "its dimension and a retained value cannot be told from a fresh one (the memory components are the same ones as "
+                 "in the other GA / ES templates)"],
     level_text=("Lean 4 theorems: Valid f i := cached objective (if any) = f sol. Individual level: solution_mut_unevaluates, "
                 "clone_from_is_assignment, as_solutions_mut_unevaluates_all, individual_api_preserves_valid, raw_writers_valid_iff, "
                 "only_solution_mut_changes_sol, api_preserves_valid / api_outputs_valid / inplace_ops_keep_solutions for every API "
@@ -62,12 +83,24 @@ CONFIG = dict(
                 "global best components, ChemicalReactionInit, the four CRO reactions for every outcome of their energy balance, "
                 "also for runs that stop with an Err). Tie: all_valid_b_iff (the driver's O predicate is AllValidX), "
                 "no_new_values_sound and leaf_check_sound (the driver's K relation on a real transition implies validity of the real "
-                "after-state), uneval_top_shape. Tied to /repo by running the real API on real individuals, real components on "
+                "after-state), uneval_top_shape. A State that is used again for another objective function g (init steps of "
+                "BestIndividualUpdate, ElitistArchiveUpdate, PersonalBestParticlesInit, GlobalBestParticleUpdate, ChemicalReactionInit, "
+                "PopulationEvaluator modelled as they are written; callerReset, configRun, reruns): reinit_valid_partial (the inits never "
+                "fail and leave every individual valid for g whatever the owned memories held before), rerun_valid_partial (ANY used "
+                "state, any sequence of steps after the inits, also stopped by an Err), reruns_valid_partial (any number of consecutive "
+                "runs with different objective functions), memstep_preserves_valid extended to the init steps. Excluded region, proved "
+                "real on the unchanged code by rerun_gbest_violates: the PSO global best (GlobalBestParticleUpdate::init is "
+                "entry().or_insert and keeps it; known finding). Tied to /repo by running the real API on real individuals, real components on "
                 "prepared states and the per-step audit of all template runs."),
     level_note=("Trusted: Lean kernel; harness + driver printing; raw_f as reference; interning of solutions by ==. The theorems are "
                 "about the model; exact agreement model = code is checked (K) for the API and for the memory / evaluator / archive / CRO "
                 "components, the other components are checked against a relation (kind), not an exact model, and not for their numeric "
                 "behaviour. The per-step audit covers the shipped templates on the shared instances only; the elitist archive occurs "
-                "in no shipped template and is tied at component level only. Nested scopes: the audit sees the innermost "
+                "in no shipped template and is tied at component level only (also for the re-initialisation). Consecutive runs: two "
+                "or three runs per case, the shipped templates on the shared instances; what the caller leaves on the population stack "
+                "is the caller's responsibility and is replaced by the harness; the Evaluations counter (reset by "
+                "PopulationEvaluator::init, modelled as initEvals) is not observed here (C06). partial: the PSO global best survives "
+                "re-initialisation in the unchanged code (known finding real_pso::rerun / GlobalBestParticleUpdate::reinit "
+                "[stale-pso-global]); a change of that init shows as a model disagreement. Nested scopes: the audit sees the innermost "
                 "BestIndividual while inside a scope."),
 )
